@@ -102,6 +102,31 @@ func scenarioC03(r *Run) {
 			allow = allow2
 		}
 	}
+	if carrier == "dns+udp" && c.Chance(1, 3, "second-dns-endpoint") {
+		// the server has a second DNS endpoint (another port) with an allow-list of its own; the client uses
+		// the first: which endpoint a request arrived on decides what it may reach
+		var allowB []string
+		for _, n := range table {
+			if c.Chance(1, 2, "allowed-b") {
+				allowB = append(allowB, n)
+			}
+		}
+		if len(allowB) == 0 {
+			allowB = []string{table[c.Pick(len(table), "allowed-b-one")]}
+		}
+		subA := WorldCfg{ServerAllow: allow}
+		subB := WorldCfg{ServerAllow: allowB}
+		entryA, urlA, _ := serverEntry(&subA, "dns+udp", CarrierPort("dns+udp"))
+		entryB, _, _ := serverEntry(&subB, "dns+udp", CarrierPort("dns+udp")+100)
+		if c.Chance(1, 2, "second-endpoint-listed-first") {
+			cfg.ServerEntries = []string{entryB, entryA}
+		} else {
+			cfg.ServerEntries = []string{entryA, entryB}
+		}
+		cfg.Upstreams = []string{urlA}
+		r.Info["second_dns_endpoint_allow"] = allowB
+		r.Count("worlds_with_two_dns_endpoints")
+	}
 	// requests
 	nreq := 1 + c.Pick(6, "requests")
 	var reqs []string
